@@ -143,9 +143,14 @@ class Timers(SM.Monitor):
                     if any(g2 < g1 - 1e-6 for g1, g2 in zip(gaps, gaps[1:])):
                         sim.fail('retransmission-gaps-decrease', f'scheduled retransmission intervals {[round(g, 2) for g in gaps]} '
                                                                  f'are not non-decreasing')
-                if rec['resends'] > IkeSa.MAX_RETRANSMISSIONS:
-                    sim.fail('too-many-retransmissions', f'request re-sent {rec["resends"]} times (MAX_RETRANSMISSIONS = '
-                                                         f'{IkeSa.MAX_RETRANSMISSIONS})')
+                # the built-in number counts transmissions (the first one included): the repository's own test_max_retransmit
+                # expects MAX_RETRANSMISSIONS - 1 re-sends and then the give-up.  Counted on the wire (byte-identical copies this
+                # endpoint emitted), not with the IKE_SA's own counter
+                n_tx = sum(1 for p in w.sent_log if p.sender == o.sender and p.data == o.data)
+                if n_tx > IkeSa.MAX_RETRANSMISSIONS:
+                    sim.fail('too-many-retransmissions', f'{SM.W_EXCH.get(h["exchange"])} request ID {h["msgid"]} was transmitted '
+                                                         f'{n_tx} times (MAX_RETRANSMISSIONS = {IkeSa.MAX_RETRANSMISSIONS}, the first '
+                                                         f'transmission included)')
             else:
                 if rec is None or h['exchange'] == 34:
                     first = rec['first'] if (rec is not None and False) else now
@@ -364,7 +369,7 @@ cfg_params = st.fixed_dictionaries({
 
 
 def ops_strategy():
-    trig = st.builds(c09.to_op, st.sampled_from(['acquire', 'soft', 'hard']), st.sampled_from(['a', 'b']), st.integers(0, 3))
+    trig = st.builds(c09.to_op, st.sampled_from(['acquire', 'soft', 'hard', 'hard_in_gone', 'hard_out_gone']), st.sampled_from(['a', 'b']), st.integers(0, 3))
     deliver = st.builds(lambda i: ['deliver', i], st.integers(0, 2))
     drop = st.builds(lambda i: ['drop', i], st.integers(0, 2))
     dup = st.builds(lambda i: ['dup', i], st.integers(0, 2))
